@@ -147,7 +147,10 @@ def pvl_flavor(
         try:
             pvl.dumps(some_pvl, **decenc)
             encodes = True
-        except (LexerError, ParseError, ValueError) as err:
+        except Exception as err:
+            # Whatever goes wrong here went wrong while encoding, the
+            # text did load (if this got to the handlers below, it would
+            # be reported as not loading).
             logging.error(f"{dialect} encode error {filename} {err}")
             encodes = False
     except (LexerError, ParseError) as err:
